@@ -8,6 +8,8 @@ def c05(tier):
     plan = [
         {'kind': 'corpus', 'file': 'r7rs.scm', 'count': 0, 'cfgs': 'basic'},
         {'kind': 'cont', 'count': 300 if q else 10000, 'cfgs': 'basic', 'shards': 1 if q else 12},
+        # continuations must survive collections: a part of the sessions runs under the C03 schedules
+        {'kind': 'cont', 'count': 40 if q else 1500, 'cfgs': 'gc', 'shards': 1 if q else 6},
     ]
 
     def relevant(mm, sess, runs):
@@ -15,7 +17,7 @@ def c05(tier):
 
     return props.cek_property(
         'C05', tier, plan, relevant,
-        'sessions of 1-3 blocks drawn from 15 parametrised continuation templates (harness/src/gen_cont.rs): escape from '
+        'sessions of 1-3 blocks drawn from 17 parametrised continuation templates (harness/src/gen_cont.rs): escape from '
         'for-each/map/deep recursion, re-entry from later top-level forms with counters, operand positions, '
         'continuations stored in globals/vectors/pairs/closures, nested extents, generators, coroutines, re-entry into '
         'a define; each run in a fresh VM and after unrelated definitions')
